@@ -69,6 +69,8 @@ TOUNI: List[Optional[Tuple[list, list]]] = [
     ([(b"\x41", "ffi"), (b"\x42", "\U0001f600"), (b"\x43", "é")], []),  # multi-character / astral targets
     ([(b"\x20", " ")], [(b"\x80", b"\xff", "Ā")]),  # mixed, high half
     ([], [(b"\x00", b"\xff", "Ѐ")]),  # every code
+    # destinations that carry out of the low byte (U+00F0.. -> U+0109; last unit of a two-unit target; U+0FFE -> U+1003)
+    ([], [(b"\x41", b"\x5a", "ð"), (b"\x61", b"\x63", "Aÿ"), (b"\x30", b"\x35", "\u0ffe")]),
 ]
 
 # widths: kind, basefont, firstchar, widths(list or None), missingwidth(or None)
@@ -82,11 +84,15 @@ WIDTHS = [
     ("plain", "ABCDEF+Foo", 200, _w(56, lambda i: 900 - 2 * i), 500),
     ("plain", "ABCDEF+Foo", 65, [611, 722, 833], None),
     ("plain", "ABCDEF+Foo", 64, [Fraction(1001, 2), Fraction(2501, 4), 750, Fraction(7, 8)], Fraction(251, 2)),
+    # explicit zero widths for encoded and unencoded codes next to a non-zero MissingWidth: 0 is a width, not "absent"
+    ("plain", "ABCDEF+Foo", 30, _w(100, lambda i: 0 if i % 3 == 2 else 150 + 5 * i), 321),
     ("std14", "Helvetica", None, None, None),
     ("std14", "Times-Roman", None, None, None),
     ("std14", "Courier", None, None, None),
     ("std14+widths", "Helvetica", 32, _w(95, lambda i: 1000 - 2 * i), 444),
     ("std14+widths", "Arial", 32, _w(95, lambda i: 300 + 5 * i), 444),
+    # a standard-14 name with explicit widths some of which are 0 (must not fall back to the built-in metric)
+    ("std14+widths", "Times-Roman", 32, _w(95, lambda i: 0 if i % 2 else 400 + i), 444),
 ]
 
 FONTMATRIX = [
@@ -124,8 +130,8 @@ BOUNDS = {"quick": {"deviations": 3, "shards": 96}, "thorough": {"deviations": 5
 
 META = {
     "rule": (
-        "font family: every choice vector over (subtype 4, base encoding 6, encoding form 2, Differences 11, ToUnicode 8, "
-        "widths 10, Type3 FontMatrix 5, embedded Type 1 header 5, spelling 2) with at most `deviations` non-default "
+        "font family: every choice vector over (subtype 4, base encoding 6, encoding form 2, Differences 11, ToUnicode 9, "
+        "widths 12, Type3 FontMatrix 5, embedded Type 1 header 5, spelling 2) with at most `deviations` non-default "
         "choices (default = Type1, WinAnsi name, no Differences, no ToUnicode, Widths from 32 + MissingWidth), minus the "
         "combinations that are not fonts (Type3 x standard-14, FontMatrix on non-Type3, FontFile on TrueType/Type3/"
         "standard-14, ...); each surviving vector is one case = one generated PDF in which all 256 codes are shown; "
@@ -389,6 +395,8 @@ def classify(kind: str, m: Dict[str, Any], obs_text: str, obs_adv: float, ctx: D
             return "C06/agl-uni-prefix-not-anchored" if name and name.startswith("u") else "C06/text:undefined-name-got-text"
         return "C06/text:" + tsrc.split(":")[0]
     wsrc = m["wsrc"]
+    if wsrc.split("/")[0].endswith("widths") and m["adv"] == 0 and obs_adv != 0:
+        return "C06/zero-Widths-entry-treated-as-absent"
     if wsrc.startswith("std14-explicit"):
         return "C06/std14-ignores-explicit-Widths"
     if "/fontmatrix" in wsrc:
@@ -797,6 +805,7 @@ def run_share(st) -> None:
 def shards(tier):
     b = BOUNDS[tier]
     vs = vectors(b["deviations"])
+    _VS_CACHE[tier] = vs  # inherited by the forked one-shot workers
     n = b["shards"]
     size = (len(vs) + n - 1) // n
     out = [("font", i, min(i + size, len(vs))) for i in range(0, len(vs), size)]
